@@ -450,3 +450,9 @@ def run(F, R, config="all"):
     r3(F, R)
     r4(F, R)
     r5(F, R)
+    # the schedule is driven by the chain's draw counter: it runs from 0 and is advanced by draw() only (C03-R3 analysis of its writers);
+    # a second writer (a reset in set_position) restarts the count while the strategy keeps its windows: more than num_tune tuning draws
+    from . import c03
+    K.borrow_rule(R, lambda sub: c03.r3(F, sub), "C06-R6", "the draw counter the warm-up schedule is compared with is written only by the chain's constructor and, once "
+                  "per successful draw, by draw() (C03-R3 analysis of the writers of draw_count)", only_rules={"C03-R3"},
+                  only_keys=lambda k: "draw_count" in k)
